@@ -97,7 +97,7 @@ def run(tier, seed):
     n0 = res.counts.get("executions", 0)
     if tier == "quick":
         cc = conc_cases(2)
-        plan = [(cc, 1), ([c for c in cc if len(c["groups"]) == 1][::2], 2), (then_cases(1), 2), (then_cases(2)[::3], 1)]
+        plan = [(cc, 1), ([c for c in cc if len(c["groups"]) == 1][::3], 2), (then_cases(1), 1), (then_cases(2)[::3], 1)]
     else:
         plan = [(conc_cases(2), 3), (conc_cases(3), 2), (then_cases(1), 3), (then_cases(2), 2)]
     plan += [([dict(c, batch=True) for c in cs], max(0, d - 1)) for (cs, d) in list(plan)[:3]]     # several answers per reactor turn
